@@ -125,6 +125,9 @@ def mmra : Handler
     | some (some a) => runHist a steps
   | "bag", [peaks] => do
       let ps ← peaks.natListList?
+      -- `bag_peaks` as regenerated from source (P10) next to the hand model
+      if !(TF.Gen.Loops.mmr_bag_peaks_ok H [] hashZero ps && TF.Gen.Loops.mmr_bag_peaks H [] hashZero ps == bag_peaks H hashZero ps)
+      then pure "GEN-MISMATCH bag_peaks" else
       pure ("ok:" ++ fmtList (bag_peaks H hashZero ps))
   | _, _ => none
 
